@@ -82,6 +82,9 @@ func (w *World) runNoise(b *BlockSpec, pos int, height int64) {
 					return
 				}
 				if ns.Kind == "simulate" {
+					if w.txIsIBC(bz) {
+						w.ibcSimulated = true
+					}
 					r := a.Query(abci.RequestQuery{Path: "/app/simulate", Data: bz})
 					out = fmt.Sprintf("code=%d", r.Code)
 				} else {
